@@ -95,6 +95,13 @@ RT_HINT = {"NOTES_MASTER": "NotesMasterPart", "NOTES_SLIDE": "NotesSlidePart", "
 
 # read methods that belong to the iteration named by the property (not properties)
 READ_METHODS = {("Table", "iter_cells"), ("Table", "cell")}
+# look-ups of a collection by element, key or name are reads whatever class defines them
+LOOKUP_METHODS = ("index", "get", "get_by_name")
+
+
+def is_lookup_method(k, n, v):
+    return n in LOOKUP_METHODS and inspect.isfunction(v) and k.__module__.startswith("pptx.") \
+        and not k.__module__.startswith("pptx.chart.data") and len(inspect.signature(v).parameters) >= 2
 SEQ_PROTO = ("__iter__", "__len__", "__getitem__")
 
 # Presence-insensitive containers: an element of one of these tags with no attribute, no text and
@@ -1488,7 +1495,7 @@ def class_accessors(U, cls):
                 continue
             if n in SEQ_PROTO and inspect.isfunction(v):
                 out[n] = (k, "seq")
-            elif (k.__name__, n) in READ_METHODS and inspect.isfunction(v):
+            elif ((k.__name__, n) in READ_METHODS and inspect.isfunction(v)) or is_lookup_method(k, n, v):
                 out[n] = (k, "method")
             elif n.startswith("_"):
                 continue
